@@ -12,8 +12,8 @@
 //!       802.15.4 / FRAG1-FRAGN / RFC 6282 IPHC + NHC decoder applied to what is on the air, for
 //!       fe80::/64, fd00::/64 and link-local-looking addresses outside fe80::/64;
 //! (c) every single-/double-bit corruption of valid packets (including DHCP replies, checksum
-//!     field boundary values 0x0000/0xffff) whose checksum then fails under the independent
-//!     verifier must have no effect on sockets or replies (`cksum/partc.rs`); 6LoWPAN ingress with
+//!     field boundary values 0x0000/0xffff, IPv4 headers with options IHL 6/7/15) whose checksum
+//!     then fails under the independent verifier must have no effect on sockets or replies (`cksum/partc.rs`); 6LoWPAN ingress with
 //!     in-line and elided UDP checksums (`cksum/lowrx.rs`).
 
 mod lowpan;
